@@ -564,14 +564,22 @@ func blockSignalChan(ch chan chan struct{}) {
 }
 
 func (c *Client) toOffline() {
+	// The read buffer is abandoned either way. ReadSlices must not
+	// continue on leftovers from a connection which is gone.
+	readConn := c.readConn
+	c.readConn = nil
+	c.bigMessage = nil // lost
+	c.bufr = nil
+	c.peek = nil // applied to prevous r, if any
+
 	select {
 	case _, ok := <-c.writeSem:
 		if !ok {
 			return // ErrClosed
 		}
-		c.readConn.Close()
+		readConn.Close()
 	default:
-		c.readConn.Close() // interrupt write
+		readConn.Close() // interrupt write
 		_, ok := <-c.writeSem
 		if !ok {
 			return // ErrClosed
@@ -580,11 +588,6 @@ func (c *Client) toOffline() {
 	blockSignalChan(c.onlineSig)
 	clearSignalChan(c.offlineSig)
 	c.writeSem <- connPending
-
-	c.readConn = nil
-	c.bigMessage = nil // lost
-	c.bufr = nil
-	c.peek = nil // applied to prevous r, if any
 
 	select {
 	case ack := <-c.pingAck:
